@@ -102,8 +102,14 @@ impl Prop for C02 {
 
     fn plan(&self, env: &Env, _index: u64, rng: &mut Rng) -> Value {
         let picked = inputs::pick(env, rng, &Mix { fixture: 40, dodrio: if env.tier == Tier::Quick { 0 } else { 1 }, generated: 60, max_funcs: 24, valid_only: true });
-        let has_debug = crate::wasmsplit::customs(&picked.bytes).map(|c| c.iter().any(|(n, _)| n.starts_with(b".debug"))).unwrap_or(true);
-        let cfg = draw_cfg(rng, has_debug);
+        let picked = inputs::maybe_attach_dwarf(picked, rng, 1, 6);
+        let (has, synth) = inputs::debug_status(&picked.iref.source, &picked.bytes);
+        // DWARF generation on only together with well-formed (harness-synthesised) debug sections, or where it must be a no-op
+        let has_debug = has && !synth;
+        let mut cfg = draw_cfg(rng, has_debug);
+        if synth && rng.chance(3, 4) {
+            cfg.dwarf = true;
+        }
         let max_len: u64 = if env.tier == Tier::Quick { 8 } else { 12 };
         let n = if rng.chance(3, 4) { rng.range(0, 4) } else { rng.range(0, max_len) };
         let mut ops = Vec::new();
@@ -111,7 +117,14 @@ impl Prop for C02 {
             ops.push(match rng.below(20) {
                 0..=3 => Op::Emit,
                 4..=6 => Op::Gc,
-                7 => Op::Reparse { cfg: draw_cfg(rng, has_debug) },
+                7 => {
+                    // walrus's own DWARF output is not claimed to be well-formed input: no DWARF generation after a re-parse of it
+                    let mut c = draw_cfg(rng, has_debug);
+                    if synth {
+                        c.dwarf = false;
+                    }
+                    Op::Reparse { cfg: c }
+                }
                 8 => Op::CustomAddRaw { name: "added".into(), data: rng.bytes(5) },
                 9 => Op::Query,
                 _ => Op::Edit(draw_edit(rng)),
@@ -287,7 +300,8 @@ impl Prop for C02 {
             }
         }
         let bytes = inputs::bytes_of(&c.input);
-        if let Some(secs) = crate::wasmsplit::split(&bytes) {
+        let dwarf_on = c.cfg.dwarf || c.ops.iter().any(|o| matches!(o, Op::Reparse { cfg } if cfg.dwarf));
+        if let Some(secs) = crate::wasmsplit::split(&bytes).filter(|_| !dwarf_on) {
             for s in secs.iter().rev() {
                 let mut b = bytes[..s.range.start].to_vec();
                 b.extend_from_slice(&bytes[s.range.end..]);
@@ -299,7 +313,7 @@ impl Prop for C02 {
             }
         }
         // smaller generated input
-        if let Some(rest) = c.input.source.strip_prefix("gen:") {
+        if let Some(rest) = c.input.source.strip_prefix("gen:").filter(|_| !dwarf_on) {
             if let Ok(p) = serde_json::from_str::<crate::gen::GenParams>(rest) {
                 let mut qs = Vec::new();
                 if p.n_funcs > 1 {
